@@ -687,6 +687,7 @@ func runHistory(payload string) string {
 				eb.flds = append([]fldD{}, e.flds...)
 				for k, i := range idx {
 					eb.flds[i].name = e.flds[idx[(k+1)%len(idx)]].name
+					eb.flds[i].omit = false // the other atlas never omits: nothing decided for it may be remembered per Go type
 				}
 			}
 			if e.kind == "tr" && e.trk == 6 {
